@@ -209,8 +209,24 @@ pub fn main(args: &[String]) {
         }),
         cv: Condvar::new(),
     });
-    set_sync_hooks(Some(Arc::new(Hooks(baton.clone()))));
     *RESULTS.lock().unwrap() = vec![Vec::new(); n];
+    if spec["free"].as_bool().unwrap_or(false) {
+        // Free-running supplement (sampling, labelled as such by the caller): no hooks, the OS schedules.
+        let mut handles = Vec::new();
+        for (tid, calls) in threads.into_iter().enumerate() {
+            handles.push(std::thread::spawn(move || {
+                for req in calls.as_array().cloned().unwrap_or_default() {
+                    let o = outcome(&req);
+                    RESULTS.lock().unwrap_or_else(|p| p.into_inner())[tid].push(o);
+                }
+            }));
+        }
+        for h in handles {
+            let _ = h.join();
+        }
+        report_and_exit(&baton);
+    }
+    set_sync_hooks(Some(Arc::new(Hooks(baton.clone()))));
 
     let mut handles = Vec::new();
     for (tid, calls) in threads.into_iter().enumerate() {
